@@ -122,3 +122,51 @@ Theorem C12_marker_new_positions : forall source templated ss se ts te,
   source_position (tf_new source templated) m = linecol_from (1, 1) (firstn (N.to_nat ss) source).
 Proof. exact marker_new_spec. Qed.
 Print Assumptions C12_marker_new_positions.
+
+(** --- indent/dedent balance, as a theorem about the parser-engine interpreter (Pem, DESIGN 6.21).
+    [meta_balanced_b g] is a decidable condition on the dumped grammar graph, evaluated on every dialect's
+    graph on every run (coq/gen/PemMeta_<d>.v): a table of net values - what a match of a node adds to the
+    Indent/Dedent sum - is consistent node by node and gives the root the value 0.  [isum g m] is the sum of
+    [SyntaxKind::indent_val] over every entry of every [insert_segments] list of the match tree [m], i.e. over
+    the meta segments [MatchResult::apply] creates; [clean_b g m]: no unparsable node in [m]. *)
+From Coq Require Import FMapPositive ZArith.
+From Sq Require Import Pem.Model Pem.LayoutInv Pem.MetaBal Pem.MetaBalProofs Pem.MetaBalEx.
+
+(** For every balanced graph, every token list none of whose tokens already carries the kind of a named node
+    with a non-zero net value, every regex oracle, fuel and span: the metas of a root match without
+    unparsable section sum to zero. *)
+Theorem Pem_clean_parse_meta_balanced : forall g ptoks rx fuel s e m,
+  meta_balanced_b g = true -> plain_tokens_b g ptoks = true ->
+  parse_root g (toks_of_list ptoks) rx fuel s e = ROk m -> clean_b g m = true -> isum g m = 0%Z.
+Proof. exact parse_root_meta_balanced. Qed.
+Print Assumptions Pem_clean_parse_meta_balanced.
+
+(** The invariant behind it, for every node, start index, slice and terminator context and any consistent
+    table [t]: a match without unparsable section has the node's net value - or matched nothing and inserts
+    nothing - and, for a node flagged [tz], its own insert list sums to zero unless it stays with a named
+    node (what makes the insert list that [Bracketed] drops harmless). *)
+Theorem Pem_match_net_value : forall g t, consistent_b g t = true ->
+  forall toks rx fuel n idx len terms m, toks_plain g t toks ->
+  match_node g toks rx fuel n idx len terms = ROk m -> clean_b g m = true ->
+  (isum g m = tv t n \/ (has_match m = false /\ isum g m = 0%Z))
+  /\ (tz t n = true -> is_some (mr_matched m) = true \/ inssum g (mr_ins m) = 0%Z).
+Proof. exact match_node_net_value. Qed.
+Print Assumptions Pem_match_net_value.
+
+(** Without the side condition the interpreter does build parses without unparsable section whose metas do
+    not balance ... *)
+Theorem Pem_meta_balance_arbitrary_graph_refuted :
+  exists g ptoks rx fuel s e m,
+    meta_balanced_b g = false /\ plain_tokens_b g ptoks = true /\
+    parse_root g (toks_of_list ptoks) rx fuel s e = ROk m /\ clean_b g m = true /\ isum g m = 1%Z.
+Proof. exact meta_balance_arbitrary_graph_refuted. Qed.
+Print Assumptions Pem_meta_balance_arbitrary_graph_refuted.
+
+(** ... and without the hypothesis on the token kinds too: [NodeMatcher] takes a token that already carries
+    its kind as it is, without the inserts of its grammar. *)
+Theorem Pem_meta_balance_token_kind_refuted :
+  exists g ptoks rx fuel s e m,
+    meta_balanced_b g = true /\ plain_tokens_b g ptoks = false /\
+    parse_root g (toks_of_list ptoks) rx fuel s e = ROk m /\ clean_b g m = true /\ isum g m = (-1)%Z.
+Proof. exact meta_balance_token_kind_refuted. Qed.
+Print Assumptions Pem_meta_balance_token_kind_refuted.
